@@ -122,7 +122,10 @@ pub fn workspaces(tier: Tier, mut f: impl FnMut(LspWs) -> bool) {
                     for final_newline in [true, false] {
                         let a_body: String = word.iter().map(|&i| A_ITEMS[i]).collect::<Vec<_>>().join("\n");
                         // the second include names a file with a blank and non-ASCII letters: its link span covers them
-                        let a = format!("// root\ninclude \"b.td\"\ninclude \"c é😀.td\"\n{a_body}\n");
+                        // (in one quarter of the workspaces the first include takes a detour through a subdirectory:
+                        // the same file under another spelling, one identity)
+                        let b_path = if nonascii && crlf { "sub/../b.td" } else { "b.td" };
+                        let a = format!("// root\ninclude \"{b_path}\"\ninclude \"c é😀.td\"\n{a_body}\n");
                         let b = format!("// b line 1\n// b line 2\n/* b line 3\n   b line 4 */\n\n{}\n", bv.join("\n"));
                         let (mut ta, mut tb) = (encode(&a, nonascii, crlf), encode(&b, nonascii, crlf));
                         if !final_newline {
@@ -135,7 +138,7 @@ pub fn workspaces(tier: Tier, mut f: impl FnMut(LspWs) -> bool) {
                         if word.len() == 1 {
                             for bom in 1..4u8 {
                                 let mark = |on: bool, t: &String| if on { format!("{}{t}", '\u{feff}') } else { t.clone() };
-                                let ws = LspWs { files: vec![("a.td".into(), mark(bom & 2 != 0, &ta)), ("b.td".into(), mark(bom & 1 != 0, &tb)), ("c é😀.td".into(), "\u{feff}class Cx;\n".into())], client_encodings: 0 };
+                                let ws = LspWs { files: vec![("a.td".into(), mark(bom & 2 != 0, &ta)), ("b.td".into(), mark(bom & 1 != 0, &tb)), ("c é😀.td".into(), "\u{feff}class Cx;\n".into()), ("sub/keep.td".into(), "// keeps the subdirectory on disk\n".into())], client_encodings: 0 };
                                 if !f(ws) {
                                     return;
                                 }
@@ -148,7 +151,7 @@ pub fn workspaces(tier: Tier, mut f: impl FnMut(LspWs) -> bool) {
                             (true, Tier::Thorough) => &[0, 1, 2, 3, 4],
                         };
                         for &client_encodings in lists {
-                            let ws = LspWs { files: vec![("a.td".into(), ta.clone()), ("b.td".into(), tb.clone()), ("c é😀.td".into(), "class Cx;\n".into())], client_encodings };
+                            let ws = LspWs { files: vec![("a.td".into(), ta.clone()), ("b.td".into(), tb.clone()), ("c é😀.td".into(), "class Cx;\n".into()), ("sub/keep.td".into(), "// keeps the subdirectory on disk\n".into())], client_encodings };
                             if !f(ws) {
                                 return;
                             }
@@ -407,7 +410,7 @@ impl Engine for C09 {
 
     fn rule(&self, tier: Tier) -> String {
         format!(
-            "three-file workspaces: root a.td = prologue + include \"b.td\" + include of a file whose name has a blank and non-ASCII letters + every sequence of 1..={} of {} statements that use b's declarations; b.td = a longer, differently-lined prologue + all {} declarations, or all but one, or all and an include of the root back (a cycle through the edited document); \
+            "three-file workspaces: root a.td = prologue + include \"b.td\" (in the non-ASCII CRLF quarter spelled \"sub/../b.td\": one file, one identity) + include of a file whose name has a blank and non-ASCII letters + every sequence of 1..={} of {} statements that use b's declarations; b.td = a longer, differently-lined prologue + all {} declarations, or all but one, or all and an include of the root back (a cycle through the edited document); \
              x {{ASCII, 'é😀' before every statement and inside a string}} x {{LF, CRLF}} x {{a client that lists no position encodings; in the non-ASCII half also [utf-8, utf-16], [utf-32, utf-16] (thorough: and [utf-16, utf-8], [utf-16])}} x {{no byte order mark; for one-statement roots also a mark at the start of b, of a, of both (and of the third file)}} x {{complete, or ending in an unterminated statement whose last token touches the end of the text (both files)}}; the root is opened in the real server (framed JSON-RPC over an in-memory pipe) and, one message at a time, \
              definition and references at the start and middle of every identifier of both files, documentSymbol, foldingRange, documentLink, inlayHint(whole file) per file and the published diagnostics are compared (the syntax errors of each file's own text, parsed independently, must be among the diagnostics published for that file); finally the root is edited so that every byte offset stays and every line number moves, and the diagnostics the client then holds are compared again. \
              non-trivial = every workspace (each has cross-file locations); distinct by construction.",
